@@ -332,7 +332,8 @@ class AsyncFIXConnection:
                     await self._process_message(decoded_msg, raw_msg)
             except asyncio.CancelledError:
                 return
-            except ConnectionError as why:
+            except OSError as why:
+                # ConnectionError and other transport errors (timeout, unreachable host)
                 self.log.debug(
                     "socket_read_task: connection has been closed %s" % (why,)
                 )
